@@ -638,6 +638,7 @@ def apply_contract_pure(E, c, fn, args, kw, st, node):
         return res
     names = [n for n, v in frame.items() if isinstance(v, SVal) and v.t is not None]
     E.pure_cache = getattr(E, "pure_cache", {})
+    E.pure_axioms = getattr(E, "pure_axioms", {})
     if key not in E.pure_cache:
         sorts = [frame[n].t.sort() for n in names]
         f = z3.Function(E.fresh_name("pure_" + _m(qn.split(".")[-1])), *sorts, E.U.sort(rty))
@@ -654,9 +655,13 @@ def apply_contract_pure(E, c, fn, args, kw, st, node):
         if post:
             ax = z3.ForAll(consts, z3.Implies(z3.And(pre) if pre else z3.BoolVal(True), z3.And(post)),
                            patterns=[f(*consts)]) if consts else z3.And(post)
-            st.assume(ax)
+            E.pure_axioms[key] = ax
         if c.trusted:
             E.assumptions.add(f"assumed contract (trusted): {qn}" + (f" - {c.note}" if c.note else ""))
+    # the contract axiom belongs to every state that uses the function (states forked before its first use included)
+    ax = E.pure_axioms.get(key)
+    if ax is not None and not any(p.get_id() == ax.get_id() for p in st.pc):
+        st.assume(ax)
     f = E.pure_cache[key]
     return SVal(f(*[frame[n].t for n in names]), rty)
 
@@ -752,6 +757,36 @@ def apply_contract(E, c, fn, args, kw, st, node, recv_lv=None):
     yield st, res
 
 
+def modified_fields(reg):
+    """names of the object fields that some function under contract may write (last component of every `modifies` path)"""
+    out = {}
+    for qn, c in reg.contracts.items():
+        for m in c.modifies or []:
+            if m.startswith(("ghost:", "heap:")) or m.endswith("._ALL_") or "." not in m:
+                continue
+            out.setdefault(m.rsplit(".", 1)[1], qn)
+    return out
+
+
+def memo_obligation(E, fdef, qualname, st, node=None):
+    """A memoised function (cached_property / functools.cache) is executed as if it were recomputed on every call.  That is only
+    faithful when nothing it reads can change afterwards: every field of `self` it reads must be outside every `modifies`
+    clause.  Otherwise the cached value can be stale - an obligation that fails."""
+    done = getattr(E, "memo_done", set())
+    E.memo_done = done
+    if qualname in done or E.suppress:
+        return
+    done.add(qualname)
+    reads = {n.attr for n in ast.walk(fdef) if isinstance(n, ast.Attribute) and isinstance(n.value, ast.Name) and n.value.id == "self"
+             and isinstance(n.ctx, ast.Load)}
+    mod = modified_fields(E.reg)
+    stale = sorted(r for r in reads if r in mod)
+    goal = z3.BoolVal(not stale)
+    E.oblige(st, f"memo:{qualname}[the memoised value cannot go stale: it reads no field that a function under contract modifies"
+             + (f"; reads {', '.join(stale)} (modified by {mod[stale[0]]})" if stale else "") + "]", goal,
+             lineno=getattr(node, "lineno", None))
+
+
 def _uf_of_args(E, name, frame, res_sort, st):
     ts = []
     for n, v in frame.items():
@@ -782,6 +817,8 @@ def call_repo(E, fn, qualname, args, kw, st, dropped=(), node=None, owner=None):
         raise OutsideSubset(f"no source for {qualname}: {e}")
     for d in dropped:
         E.dropped.add(d)
+    if any("memoisation" in d for d in dropped):
+        memo_obligation(E, fdef, qualname, st, node)
     for d in fdef.decorator_list:
         E.dropped.add("decorator @" + ast.unparse(d) + " (interpreted/ignored)")
     bound = bind_params(E, fn, None, args, kw, st, qualname)
